@@ -33,7 +33,7 @@ XML_LISTS = (NS + "assetAdministrationShells", NS + "submodels", NS + "conceptDe
 DOCUMENTED = (KeyError, ValueError, TypeError, model.AASConstraintViolation)
 
 OPS = ("delete", "null", "wrongtype", "enum", "empty", "overlong", "forbidden", "xsliteral", "base64",
-       "modeltype", "dupid", "wronglist", "harmless", "nsrebind")
+       "modeltype", "dupid", "wronglist", "harmless", "nsrebind", "xsextreme")
 # "harmless" is the 13th operator: it changes the text of the document without changing its content (XML comments,
 # processing instructions and white space between elements / inside text; JSON insignificant white space, member
 # order, string escapes) - both readers must return exactly the undamaged result
@@ -55,6 +55,62 @@ OTHER_TAGS = ["capability", "submodel", "property", "range", "assetAdministratio
               "extension", "dataSpecificationIec61360", "submodelElementList", "operation", "key", "reference"]
 
 logging.getLogger("basyx").setLevel(logging.CRITICAL + 1)
+
+# "xsextreme": literals that have the *shape* of their XSD type (or nearly) but an extreme value: the lexical checks let
+# them through (or nearly), the constructors behind them (int, float, Decimal, datetime.date/time/datetime, timezone,
+# relativedelta, bytes.fromhex, b64decode) may then raise something else than ValueError.  The operator also re-types the
+# leaf (sibling valueType), so every parser is reached from every typed leaf.
+_N = "9"
+_INTS = [_N * 5000, "-" + _N * 4300, _N * 400, "+0", "-0", "\u0663", "\uff11\uff12", "1_000", " 7 ", "0x10", "1e3", "1.0",
+         "128", "-129", "256", "32768", "-32769", "65536", "2147483648", "-2147483649", "4294967296",
+         "9223372036854775808", "-9223372036854775809", "18446744073709551616", "0", "1", "-1", "--1", "+-1"]
+XS_EXTREME = {
+    "xs:date": ["99999999999-01-01", "10000-01-01", "12345678901234567890-12-31Z", "-0001-01-01", "0000-01-01", "2020-02-30",
+                "2020-13-01", "2020-00-10", "2020-01-32", "2020-01-01+14:00", "2020-01-01+14:01", "2020-01-01+99:99",
+                "2020-01-01-24:00", "9999-12-31-14:00", "0001-01-01+14:00", "-99999-01-01"],
+    "xs:dateTime": ["99999999999-01-01T00:00:00", "10000-01-01T00:00:00Z", "2020-01-01T24:00:00", "2020-01-01T24:00:01",
+                    "2020-12-31T24:00:00", "9999-12-31T24:00:00", "2020-01-01T23:59:60", "2020-01-01T25:00:00",
+                    "2020-01-01T00:00:00." + _N * 40, "0000-01-01T00:00:00", "2020-01-01T00:00:00+24:00",
+                    "2020-01-01T00:00:00+99:99", "9999-12-31T23:59:59-14:00", "0001-01-01T00:00:00+14:00",
+                    "-99999-01-01T00:00:00Z", "2020-02-30T00:00:00"],
+    "xs:time": ["24:00:00", "24:00:01", "24:00:00.000001", "23:59:60", "99:99:99", "00:00:00." + _N * 40, "12:00:00+14:01",
+                "12:00:00-99:00", "12:00:00+24:00", "24:00:00Z", "24:00:00+14:00"],
+    "xs:gYear": [_N * 12, "-" + _N * 12, _N * 5000, "0000", "99999", "2020+99:00", "2020-14:01", "-0000"],
+    "xs:gYearMonth": [_N * 12 + "-01", "2020-13", "2020-00", "0000-01", "2020-01+99:00", "-" + _N * 30 + "-12"],
+    "xs:gMonth": ["--13", "--00", "--12+15:00", "--99", "--01-99:00"],
+    "xs:gDay": ["---32", "---00", "---99", "---31+99:00"],
+    "xs:gMonthDay": ["--02-30", "--02-29", "--13-01", "--00-00", "--04-31", "--12-31+99:00"],
+    "xs:duration": ["P" + _N * 30 + "Y", "P" + _N * 30 + "M", "P" + _N * 30 + "D", "PT" + _N * 30 + "H", "PT" + _N * 30 + "S",
+                    "PT0." + _N * 40 + "S", "-P" + _N * 25 + "M", "P1Y" + _N * 30 + "M", "PT" + _N * 5000 + "H",
+                    "P" + _N * 19 + "Y" + _N * 19 + "M" + _N * 19 + "DT" + _N * 19 + "H" + _N * 19 + "M" + _N * 19 + "S",
+                    "P0Y", "-PT0S", "PT1.S", "P1.5Y"],
+    "xs:decimal": ["1e999999999", "1E+" + _N * 30, _N * 5000 + "." + _N * 5000, "NaN", "Infinity", "sNaN", "-.", ".",
+                   "1e" + _N * 30, "+.5", "-0.0", "\u0663.\u0663", "1_0.0", "0." + "0" * 5000 + "1"],
+    "xs:double": ["1e99999", "-1e99999", "INF", "-INF", "+INF", "NaN", "nan", "infinity", "inf", "1e-99999", "0x1p3", "1_0",
+                  _N * 5000, "\uff11.\uff15", "1e", "e1", " 1.0 ", "-0"],
+    "xs:boolean": ["TRUE", "True", "1", "0", " true ", "yes", "00", "01"],
+    "xs:base64Binary": ["QUJD" * 300000, "QUJD" * 300000 + "Q", "====", "A===", "AAA", "AA=A", "QUJD\n", "QU JD", "\u00fc\u00fc\u00fc\u00fc",
+                        "QUJ", "Q", "QUJD=", "\ud800AAA"],
+    "xs:hexBinary": ["0", "zz", "0g", "AB" * 500000, "AB" * 500000 + "A", "a b", "\uff21\uff22", "0x41"],
+    "xs:anyURI": [" ", "http://[::1", "a b", "%zz", "x" * 100000],
+    "xs:normalizedString": ["a\tb", "a\nb", " a ", "a  b", "\r"],
+    "xs:string": ["x" * 1000000],
+}
+XS_EXTREME["xs:float"] = XS_EXTREME["xs:double"]
+for _t in ("integer", "long", "int", "short", "byte", "nonPositiveInteger", "negativeInteger", "nonNegativeInteger",
+           "positiveInteger", "unsignedLong", "unsignedInt", "unsignedShort", "unsignedByte"):
+    XS_EXTREME["xs:" + _t] = _INTS
+XS_EXTREME_PAIRS = [(t, lit) for t in sorted(XS_EXTREME) for lit in XS_EXTREME[t]] + \
+                   [("xs:noSuchType", "1"), ("", "1"), ("xs:Int", "1"), ("int", "1")]
+XS_FIXED = {"lastUpdate": "xs:dateTime", "minInterval": "xs:duration", "maxInterval": "xs:duration"}
+
+
+def extreme_pair(key, variant):
+    """(type to write into the sibling valueType or None, literal)"""
+    if key in XS_FIXED:
+        lits = XS_EXTREME[XS_FIXED[key]]
+        return None, lits[variant % len(lits)]
+    return XS_EXTREME_PAIRS[variant % len(XS_EXTREME_PAIRS)]
 
 
 # ------------------------------------------------------------------ documents
@@ -259,9 +315,7 @@ def _run_reader(fmt, data, failsafe, into=None, **kw):
             read_aas_xml_file_into(into, f, failsafe=failsafe, **kw)
             return "ok", into
         return "ok", read_aas_xml_file(f, failsafe=failsafe, **kw)
-    except RecursionError:
-        raise
-    except Exception as e:   # noqa
+    except Exception as e:   # noqa  (includes RecursionError raised inside a reader)
         return "exc", e
 
 
@@ -316,6 +370,7 @@ def json_applicable(doc, path):
         if (isinstance(parent, dict) and key in ("value", "min", "max")
                 and ("valueType" in parent or parent.get("modelType") in ("Extension",))) or key in XS_KEYS:
             ops.append("xsliteral")
+            ops.append("xsextreme")
         if isinstance(parent, dict) and parent.get("modelType") == "Blob" and key == "value":
             ops.append("base64")
         if key == "id" and len(path) == 3:
@@ -350,9 +405,11 @@ def json_damage(doc, path, op, variant, other_id=None):
         elif isinstance(v, str):
             alts = [17, [v], {"x": v}, True, 1.5, {"modelType": "Property", "valueType": "xs:int"}]
         elif isinstance(v, list):
-            alts = [{"x": 1}, "abc", 5, {"modelType": "Capability"}]
+            alts = [{"x": 1}, "abc", 5, {"modelType": "Capability"}, [], [None], [v], [[]], {"modelType": "Submodel", "id": "urn:w"}]
         elif isinstance(v, dict):
-            alts = [[1], "abc", 5, [v]]
+            alts = [[1], "abc", 5, [v], {}, {"modelType": "Capability", "idShort": "c"},
+                    {"modelType": "Submodel", "id": "urn:w"}, {"modelType": "Property", "idShort": "p", "valueType": "xs:int"},
+                    {"modelType": "ConceptDescription", "id": "urn:w2"}, True]
         else:
             alts = ["1", [v]]
         parent[key] = alts[variant % len(alts)]
@@ -376,8 +433,14 @@ def json_damage(doc, path, op, variant, other_id=None):
     elif op == "xsliteral":
         parent[key] = ["abc", "99999999999999999999999999999999999999", "-", "1e9999", "P99999999999999999999Y",
                        "9999-99-99T99:99:99", " 1", "0x10"][variant % 8]
+    elif op == "xsextreme":
+        t, lit = extreme_pair(key, variant)
+        if t is not None and isinstance(parent, dict):
+            parent["valueType"] = t
+        parent[key] = lit
     elif op == "base64":
-        parent[key] = ["abc", "abcde", "üüüü", "===="][variant % 4]
+        parent[key] = ["abc", "abcde", "üüüü", "====", "QUJD" * 300000, "QUJD" * 300000 + "Q", "QUJD\r\n", "QU JD", "Q",
+                       "\ud800AAA"][variant % 10]
     elif op == "modeltype":
         alts = ["Foo", ""] + [m for m in OTHER_MODELTYPES if m != v]
         parent[key] = alts[variant % len(alts)]
@@ -413,7 +476,13 @@ def json_relex(d, variant):
         if isinstance(v, list):
             return [rev(x) for x in v]
         return v
-    k = variant % 7
+    k = variant % 10
+    if k == 7:
+        return json.dumps(d, ensure_ascii=False).encode("utf-16")       # json.load detects UTF-16 / UTF-32 / BOM
+    if k == 8:
+        return json.dumps(d, ensure_ascii=False).encode("utf-32-le")
+    if k == 9:
+        return json.dumps(d, ensure_ascii=False).encode("utf-8-sig")
     if k == 0:
         return json.dumps(d, indent=2)
     if k == 1:
@@ -490,6 +559,7 @@ def xml_applicable(root, path):
         if (name in ("value", "min", "max") and parent is not None
                 and (parent.find(NS + "valueType") is not None or _lname(parent) == "extension")) or name in XS_TAGS:
             ops.append("xsliteral")
+            ops.append("xsextreme")
         if name == "value" and parent is not None and _lname(parent) == "blob":
             ops.append("base64")
         if name == "id" and len(path) == 3:
@@ -550,8 +620,18 @@ def xml_damage(root, path, op, variant, other_id=None):
     elif op == "xsliteral":
         el.text = ["abc", "99999999999999999999999999999999999999", "-", "1e9999", "P99999999999999999999Y",
                    "9999-99-99T99:99:99", " 1", "0x10"][variant % 8]
+    elif op == "xsextreme":
+        t, lit = extreme_pair(name, variant)
+        vt = parent.find(NS + "valueType") if parent is not None else None
+        if t is not None:
+            if vt is None:
+                vt = etree.Element(NS + "valueType")
+                el.addprevious(vt)
+            vt.text = t
+        el.text = lit
     elif op == "base64":
-        el.text = ["abc", "abcde", "üüüü", "===="][variant % 4]
+        el.text = ["abc", "abcde", "üüüü", "====", "QUJD" * 300000, "QUJD" * 300000 + "Q", "QUJD\r\n", "QU JD", "Q",
+                   "A"][variant % 10]
     elif op == "modeltype":
         alts = [NS + "foo", "{urn:other}" + name, name] + [NS + t for t in OTHER_TAGS if t != name]
         el.tag = alts[variant % len(alts)]
@@ -587,12 +667,15 @@ AAS3 = NS[1:-1]
 OLD_NS = "http://www.admin-shell.io/aas/2/0"
 
 
+HARMLESS_K = 19      # number of lexical variants of the harmless operator for XML
+
+
 def _text_cuts(t, variant):
     """positions at which a comment is put into a text: behind leading / before trailing white space (the parser may
     take white-space-only character data next to markup for indentation), the ends, and a seeded position"""
     lead = len(t) - len(t.lstrip())
-    cuts = sorted({lead, len(t.rstrip()), 0, len(t), (variant // 13) % (len(t) + 1)})
-    return cuts[(variant // 13) % len(cuts)]
+    cuts = sorted({lead, len(t.rstrip()), 0, len(t), (variant // HARMLESS_K) % (len(t) + 1)})
+    return cuts[(variant // HARMLESS_K) % len(cuts)]
 
 
 def _retag(text, mapping):
@@ -608,7 +691,7 @@ def xml_relex(r, el, parent, variant):
     differently; the content is unchanged"""
     def junk(k):
         return etree.Comment(" note ") if k % 2 == 0 else etree.ProcessingInstruction("verif", "x=1")
-    k = variant % 13
+    k = variant % HARMLESS_K
     if k in (0, 1):                                    # before the node (between list items / elements)
         el.addprevious(junk(k))
     elif k in (2, 3):                                  # after the node
@@ -623,11 +706,11 @@ def xml_relex(r, el, parent, variant):
             el.text, j.tail = t[:cut], t[cut:]
             el.insert(0, j)
     elif k == 6:                                       # last child / at the end of the text
-        el.append(junk(variant // 13))
+        el.append(junk(variant // HARMLESS_K))
     elif k == 7:                                       # directly under the root, before the first list
-        r.insert(0, junk(variant // 13))
+        r.insert(0, junk(variant // HARMLESS_K))
     elif k == 8:                                       # after the last list and around the root element
-        r.append(junk(variant // 13))
+        r.append(junk(variant // HARMLESS_K))
         r.addprevious(etree.Comment(" before the root "))
         return RawText(etree.tostring(r.getroottree()))
     elif k == 9:                                       # white space between all elements
@@ -638,7 +721,7 @@ def xml_relex(r, el, parent, variant):
     elif k == 11:                                      # another prefix for the AAS namespace
         return RawText(_retag(etree.tostring(r).decode(), [(r"<aas:", "<a3:"), (r"</aas:", "</a3:"),
                                                            (r"xmlns:aas=", "xmlns:a3=")]).encode())
-    else:                                              # the node's subtree declares the AAS namespace as its default
+    elif k == 12:                                      # the node's subtree declares the AAS namespace as its default
         text = etree.tostring(el, with_tail=False).decode()
         text = _retag(text, [(r"<aas:", "<"), (r"</aas:", "</"), (r"xmlns:aas=", "xmlns=")])
         new = etree.fromstring(text.encode())
@@ -646,6 +729,32 @@ def xml_relex(r, el, parent, variant):
         if parent is None:
             return RawText(text.encode())
         parent.replace(el, new)
+    elif k == 13:                                      # another encoding of the same document
+        return RawText(etree.tostring(r, encoding="UTF-16", xml_declaration=True))
+    elif k == 14:                                      # ... characters outside Latin-1 become character references
+        return RawText(etree.tostring(r, encoding="ISO-8859-1", xml_declaration=True))
+    elif k == 15:                                      # the text of a leaf as a CDATA section
+        if len(el) == 0 and el.text and "]]>" not in el.text and "\r" not in el.text:
+            # (a carriage return cannot be escaped inside CDATA and would be normalised to a line feed)
+            el.text = etree.CDATA(el.text)
+            # (UTF-8: with the default ASCII output lxml writes character references *inside* the CDATA section)
+            return RawText(etree.tostring(r, encoding="UTF-8"))
+        else:
+            el.addprevious(junk(0))
+    elif k == 16:                                      # schema location and further namespace declarations on the root
+        text = etree.tostring(r).decode()
+        return RawText(text.replace(
+            f'xmlns:aas="{AAS3}"', f'xmlns:aas="{AAS3}" xmlns:xsi="http://www.w3.org/2001/XMLSchema-instance" '
+            f'xmlns:other="urn:other" xsi:schemaLocation="{AAS3} AAS.xsd"', 1).encode())
+    elif k == 17:                                      # attributes the metamodel does not know
+        el.set("{http://www.w3.org/XML/1998/namespace}space", "preserve")
+        el.set("note", "x")
+    else:                                              # the text of a leaf spelled with numeric character references
+        if len(el) == 0 and el.text:
+            t, el.text = el.text, "VERIFMARKVERIF"
+            refs = "".join("&#x%X;" % ord(c) for c in t)
+            return RawText(etree.tostring(r).decode().replace("VERIFMARKVERIF", refs, 1).encode())
+        el.addnext(junk(1))
     return r
 
 
@@ -723,7 +832,9 @@ def oracle(fmt, data, base_canon, damaged_ids, all_ids, dup_rule=None, harmless=
                         + str(aasgen.diff(json.loads(base_canon[i]), json.loads(c1[i]))))
                 break
         if fail is None:
-            extra = [i for i in c1 if i not in all_ids and i not in (dup_rule or ())]
+            text = data if isinstance(data, str) else data.decode("utf-8", "replace")
+            # (an identifier written into the document by the damage itself is not "extra")
+            extra = [i for i in c1 if i not in all_ids and i not in (dup_rule or ()) and str(i) not in text]
             if extra:
                 fail = ("extra-object", f"failsafe result contains identifiers {extra[:3]!r} that are not in the document")
     if fail is None and harmless and k2 != "ok":
